@@ -99,6 +99,20 @@ func genC04(r *Rng, n int, tier string, emit func(Case)) {
 			doc = []interface{}{nTag("div", false, nil, nTag("span", true, nil, nText("{"), code, nText("}}")))}
 		}
 		data := J{"h": hs, "o": J{"h": hs, "inner": J{"h": hs}}, "arr": []interface{}{"x", hs}, "yes": true, "no": false, "empty": ""}
+		if rr.Chance(1, 5) {
+			// the byte-identical expression first UNESCAPED (`!=` / `!{}`), then escaped, in one template: the earlier raw use must
+			// not decide how the later one is compiled. Judged by the reference semantics (no marker substitution: the raw
+			// occurrence prints the hostile string as it is).
+			raw := nBuf(carry(rr, shape), false)
+			raw["inline"] = code["inline"]
+			doc = append([]interface{}{nTag("div", false, nil, raw)}, doc...)
+			if rr.Bool() {
+				doc = append(doc, nTag("i", true, nil, nBuf(carry(rr, shape), false)), nTag("u", true, nil, nBuf(carry(rr, shape), true)))
+			}
+			emit(Case{"kind": "render", "oracle": "pug", "doc": doc, "data": data, "shape": shape, "bucket": "raw-then-escaped",
+				"what": "raw then escaped " + printExpr(carry(rr, shape))})
+			continue
+		}
 		emit(Case{"kind": "render", "oracle": "pug", "subst": J{"hostile": hs, "marker": c04marker}, "doc": doc, "data": data,
 			"shape": shape, "bucket": shape, "what": shape + " " + printExpr(carry(rr, shape))})
 	}
